@@ -68,5 +68,20 @@ package lightning
 //@   requires @feefits [C02] maxFee < 9223372036854775808 && amountMsat < 9223372036854775808
 //@   calls (lnrpc.LightningClient).QueryRoutes asserts @feelimit [C02] in.FeeLimit != nil && typeis(in.FeeLimit.Limit, ptr(lnrpc.FeeLimit_Fixed)) && unbox(in.FeeLimit.Limit, ptr(lnrpc.FeeLimit_Fixed)).Fixed == maxFee && in.AmtMsat == amountMsat
 
-// (The CLN adapter builds its request as an inline map[string]interface{} literal handed to an HTTP helper:
-// outside the contract language's type expressions; it stays trusted to implement the interface contract.)
+
+// ---- the CLN adapter (C02): the body of the pay request carries the invoice and the fee limit it was given,
+// in millisatoshi (a product that wraps in uint64 is smaller than the true limit: the safe direction)
+//@ func (*CLNClient).SendPayment
+//@   tags C02
+//@   calls (*CLNClient).Post asserts @bodymap [C02] typeis(body, mapof(string, any))
+//@   calls (*CLNClient).Post asserts @haskeys [C02] ("maxfee" in unbox(body, mapof(string, any))) && ("bolt11" in unbox(body, mapof(string, any)))
+//@   calls (*CLNClient).Post asserts @feetype [C02] typeis(unbox(body, mapof(string, any))["maxfee"], uint64)
+//@   calls (*CLNClient).Post asserts @feelimit [C02] unbox(unbox(body, mapof(string, any))["maxfee"], uint64) == (maxFee * 1000) % 18446744073709551616
+//@   calls (*CLNClient).Post asserts @invoice [C02] typeis(unbox(body, mapof(string, any))["bolt11"], string) && unbox(unbox(body, mapof(string, any))["bolt11"], string) == request
+
+//@ func (*CLNClient).PayPartialAmount
+//@   tags C02
+//@   calls (*CLNClient).Post asserts @bodymap [C02] typeis(body, mapof(string, any)) && ("maxfee" in unbox(body, mapof(string, any))) && ("bolt11" in unbox(body, mapof(string, any))) && ("partial_msat" in unbox(body, mapof(string, any)))
+//@   calls (*CLNClient).Post asserts @feelimit [C02] typeis(unbox(body, mapof(string, any))["maxfee"], uint64) && unbox(unbox(body, mapof(string, any))["maxfee"], uint64) == (maxFee * 1000) % 18446744073709551616
+//@   calls (*CLNClient).Post asserts @partial [C02] typeis(unbox(body, mapof(string, any))["partial_msat"], uint64) && unbox(unbox(body, mapof(string, any))["partial_msat"], uint64) == amountMsat
+//@   calls (*CLNClient).Post asserts @invoice [C02] typeis(unbox(body, mapof(string, any))["bolt11"], string) && unbox(unbox(body, mapof(string, any))["bolt11"], string) == request
